@@ -1,0 +1,20 @@
+//go:build verif
+
+// Contracts for the verif build tag (read by /verif/govc; comment-only).
+package balancer
+
+// swapShard proposes to move one replica of a shard away from fromNode. The target
+// it proposes is never a member of the shard's current ensemble: the members other
+// than fromNode are excluded from the candidates, and fromNode itself is refused.
+// (The proposal is the SwapNodeAction sent just before MoveShardToNode is called;
+// the assertion is placed at that call.)
+//
+//@ func nodeBasedBalancer.swapShard(r, candidateShard, fromNode, swapGroup, loadRatios, candidates, metadata, currentStatus) (ok, err)
+//@ property C19
+//@ requires r.configResource != nil && r.selector != nil && candidateShard != nil && candidateShard.ShardInfo != nil
+//@ requires candidates != nil && swapGroup != nil && loadRatios != nil && r.Logger != nil
+//@ loop 0 invariant selected != nil && fresh(selected)
+//@ loop 0 invariant forall j int :: 0 <= j && j <= rangeindex ==> srvId(candidateShard.Ensemble[j]) == fromNodeID || ghset(members, selected, srvId(candidateShard.Ensemble[j]))
+//@ assume at call Select#0: err == nil ==> res != "" because "r.selector is only ever set by NewLoadBalancer to single.NewSelector(), i.e. single.server, whose Select is verified to ensure err == nil ==> res != \"\""
+//@ assert at call MoveShardToNode#0: srvId(*targetNode) == targetNodeID && forall j int :: 0 <= j && j < len(candidateShard.Ensemble) ==> srvId(candidateShard.Ensemble[j]) != targetNodeID
+//@ modifies *
